@@ -509,12 +509,13 @@ func runC17Backoff(c *Ctx) {
 	// wiring in NewSigner
 	if ns := w.Func(crypkiPkg, "NewSigner"); ns != nil {
 		maxOK, boOK := false, false
-		for _, call := range callsIn(ns) {
+		w.Focus(ns)
+		for _, call := range w.callsInDeep(ns) {
 			switch {
 			case strings.HasSuffix(calleeName(call), "/retry.WithMax"):
 				maxOK = strings.Contains(w.Expr(call.Common().Args[0]), ".Retries")
 			case strings.HasSuffix(calleeName(call), "/retry.WithBackoff"):
-				if mc, ok := strip(call.Common().Args[0]).(*ssa.MakeClosure); ok && len(mc.Bindings) == 1 {
+				if mc, ok := w.canon(ns, call.Common().Args[0]).(*ssa.MakeClosure); ok && len(mc.Bindings) == 1 {
 					boOK = strings.Contains(fnName(mc.Fn.(*ssa.Function)), "internal/backoff.Config).Backoff") && strings.HasSuffix(w.Expr(mc.Bindings[0]), "internal/backoff.DefaultConfig")
 				}
 			}
